@@ -397,7 +397,9 @@ def _install_wrappers(ctx):
                 _s['n']['contract.unrecognised_call_from.' + caller] += 1
                 return result
             try:
-                msg = _post(kind, pairs, result, caller)
+                # the monitor's own arithmetic is done on python floats (a narrow numpy integer quantity times a
+                # density would wrap around inside the monitor)
+                msg = _post(kind, [(f, float(q)) for f, q in pairs], result, caller)
             except Exception as exc:                 # a crash of the postcondition itself is reported, not raised
                 msg = 'postcondition could not be evaluated: %r' % (exc,)
             if msg:
